@@ -24,6 +24,8 @@ func FMA(g *G, n int) []Program {
 	var out []Program
 	for i := 0; i < n; i++ {
 		p, m := g.Prec(), g.Mode()
+		distinct := false // x, y, u in three different registers
+		g.SawExtreme = false
 		switch k := g.R.Intn(100); {
 		case k < 25: // random operands
 			e1, e2 := g.Exp(), g.Exp()
@@ -101,6 +103,7 @@ func FMA(g *G, n int) []Program {
 			g.Load("r1", g.Bool(), g.Digits(ly), 0, 0, g.Mode())
 			g.Load("r3", g.Bool(), g.Digits(1+g.R.Intn(p+3)), e+gap, 0, g.Mode())
 		case k < 94: // the product's exponent leaves the int32 range while x*y+u stays inside (D17 class)
+			distinct = true // (u = y or u = x would pair an operand at the end of the range with one in the middle: a 2^31-digit alignment)
 			top := g.Bool()
 			var e1 int64 = 2147483647 - int64(g.R.Intn(3))
 			if !top {
@@ -119,6 +122,10 @@ func FMA(g *G, n int) []Program {
 			g.loadClass("r3", classes[g.R.Intn(6)], 0)
 		}
 		z, x, y, u := g.fmaShape()
+		if distinct || g.SawExtreme {
+			x, y, u = "r0", "r1", "r3"
+			z = g.PickS("r2", "r2", "r0", "r1", "r3")
+		}
 		if z == "r2" {
 			g.Receiver("r2", g.Pick(p, p, p, 0), m)
 		} else {
